@@ -1,5 +1,5 @@
-import SaModel.Lemmas.C02Container
-import SaModel.Read.Cast
+import SaModel.Lemmas.C02TypedStruct
+import SaModel.Lemmas.C02DecodeAt
 /-
 C02 — deserializing any valid Arrow array yields exactly its logical content.
 Property theorems only.  Model: SaModel/Read/Reader.lean (`Fixes.all`); specification: SaModel/Spec/Decode.lean
@@ -10,433 +10,60 @@ in its slot-wise form SaModel/Spec/DecodeAt.lean; rendering of logical values: S
   (`physical`) and the strings are well-formed UTF-8, `deserialize_any` returns exactly `toD a lv`.
 * `C02_layout_irrelevant`: the result is a function of the decoded value and the type skeleton only, so any two
   arrays that decode alike read alike — every layout freedom of the statement is an instance.
+* `decodeAll_eq_decodeAt`: the slot-wise oracle used everywhere is `Spec.decodeAll` / `Spec.decode`.
+* `read_typed_decode`: typed reads (every target shape, any nesting) return what the value-level specification `cast`
+  demands; `null_*_reads_hidden_data` + witness: known finding #23.
 -/
 namespace SaModel.Props.C02
 open SaModel SaModel.Read SaModel.Spec
 
-/-! ### what a successful construction says about the parts -/
+/-! ### the slot-wise oracle IS the oracle
 
-theorem new_struct_inv {len : Nat} {v : Option Bits} {fs : ArrFields} (h : new Fixes.all (.struct len v fs) = .ok ()) :
-    newFields Fixes.all fs = .ok () := by unfold new at h; exact h
+`Spec.decodeAt` / `lenOf` (what every theorem below and the driver use) against `Spec.decodeAll` / `Spec.decode`
+(SaModel/Spec/Decode.lean, the definition of what an array means): equal for EVERY array, with no well-formedness
+hypothesis (both fail in the same slots with the same error).  Proof: `Lemmas/C02DecodeAt.lean`, mutual structural
+recursion over `Arr` / `ArrFields` / `ArrUFields`. -/
 
-theorem newFields_cons_inv {fm : FieldMeta} {a : Arr} {rest : ArrFields}
-    (h : newFields Fixes.all (.cons fm a rest) = .ok ()) : new Fixes.all a = .ok () ∧ newFields Fixes.all rest = .ok () := by
-  unfold newFields at h
-  obtain ⟨_, _, h⟩ := bind_ok_inv h
-  obtain ⟨u, hu, h⟩ := bind_ok_inv h
-  cases u
-  exact ⟨hu, h⟩
+theorem decodeAll_eq_decodeAt (a : Arr) : decodeAll a = (List.range (lenOf a)).map (decodeAt a) :=
+  decodeAll_eq_map_decodeAt a
 
-theorem new_list_inv {lg : Bool} {v : Option Bits} {offs : List Int} {fm : FieldMeta} {el : Arr}
-    (h : new Fixes.all (.list lg v offs fm el) = .ok ()) : new Fixes.all el = .ok () := by
-  unfold new at h
-  obtain ⟨_, _, h⟩ := bind_ok_inv h
-  exact h
+theorem decode_eq_decodeAt (a : Arr) (i : Nat) : Spec.decode a i = decodeAt a i := (decodeAll_spec a).2 i
 
-theorem new_fsl_inv {len : Nat} {v : Option Bits} {n : Int} {fm : FieldMeta} {el : Arr}
-    (h : new Fixes.all (.fixedSizeList len v n fm el) = .ok ()) : new Fixes.all el = .ok () ∧ 0 ≤ n := by
-  unfold new at h
-  obtain ⟨_, _, h⟩ := bind_ok_inv h
-  obtain ⟨u, hu, h⟩ := bind_ok_inv h
-  obtain ⟨m, hm, _⟩ := bind_ok_inv h
-  cases u
-  refine ⟨hu, ?_⟩
-  unfold tryIntoUsize at hm
-  split at hm
-  · assumption
-  · cases hm
+theorem len_eq_lenOf (a : Arr) : Arr.len a = lenOf a := (decodeAll_spec a).1
 
-theorem new_map_inv {v : Option Bits} {offs : List Int} {mm : MapMeta} {ks vs : Arr}
-    (h : new Fixes.all (.map v offs mm ks vs) = .ok ()) : new Fixes.all ks = .ok () ∧ new Fixes.all vs = .ok () := by
-  unfold new at h
-  obtain ⟨_, _, h⟩ := bind_ok_inv h
-  obtain ⟨u, hu, h⟩ := bind_ok_inv h
-  obtain ⟨_, _, h⟩ := bind_ok_inv h
-  cases u
-  exact ⟨hu, h⟩
+/-- non-vacuity: a nested array with nulls, a non-zero first offset, an out-of-range slot and a failing slot
+(the last list entry points outside the child) — both oracles computed -/
+example :
+    let a : Arr := .list false (some ⟨[0b1011], 0⟩) [1, 3, 3, 9, 4] ⟨"element", true, []⟩
+      (.struct 4 none (.cons ⟨"x", true, []⟩ (.prim .int32 (some ⟨[0b0101], 0⟩) [7, 8, 9, 10]) .nil))
+    lenOf a = 4 ∧ (List.range 6).map (Spec.decode a) = (List.range 6).map (decodeAt a) ∧
+      (decodeAt a 0).isOk = true ∧ decodeAt a 2 = .ok .null ∧ (decodeAt a 3).isOk = false := by decide
 
-/-! ### dictionary -/
 
-theorem dictionary_case (ks vs : Arr) (i : Nat) (lv : LVal) (h : decodeAt (.dictionary ks vs) i = .ok lv)
-    (hn : new Fixes.all (.dictionary ks vs) = .ok ()) (hp : physical (.dictionary ks vs) = true) (hu : utf8Ok lv = true) :
-    readAny Fixes.all (.dictionary ks vs) i = .ok (toD (.dictionary ks vs) lv) := by
-  unfold new at hn
-  split at hn
-  · rename_i kty kv kvals vty vv voffs vdata
-    split at hn
-    · rename_i hty
-      simp only [Bool.and_eq_true] at hty
-      split at hn
-      · cases hn
-      · rename_i hvv
-        have hvv' : vv = none := by cases vv <;> simp_all
-        subst hvv'
-        unfold decodeAt at h
-        simp only [lenOf] at h
-        by_cases hi : i < kvals.length
-        · simp only [hi, if_true] at h
-          obtain ⟨klv, hk, h⟩ := bind_ok_inv h
-          unfold decodeAt at hk
-          simp only [hi, if_true] at hk
-          rcases withValidity_ok hk with ⟨hv, rfl⟩ | ⟨hv, hpay⟩
-          · simp only [pure, Except.pure] at h
-            cases h
-            have hs : isSome Fixes.all (.dictionary (.prim kty kv kvals) (.bytes vty none voffs vdata)) i = .ok false := by
-              simp only [isSome, optIsSome, primGet_eval hi hv]; rfl
-            unfold readAny; rw [anyAt_of_isSome hs]; simp [toD]
-          · cases hpay
-            have hleaf : leafOf kty (kvals.getD i 0) = .int (kvals.getD i 0) := by
-              cases kty <;> simp_all [isIntPrim, leafOf]
-            rw [hleaf] at h
-            simp only at h
-            split at h
-            · rename_i hx0
-              unfold decodeAt at h
-              split at h
-              · rename_i hj
-                rcases withValidity_ok h with ⟨hv2, _⟩ | ⟨hv2, hpay2⟩
-                · simp [isValid] at hv2
-                · simp only at hpay2
-                  split at hpay2
-                  · rename_i hr
-                    cases hpay2
-                    simp only [bytesVal, hty.2, if_true, utf8Ok] at hu
-                    have hp' : voffs.length - 1 ≤ 9223372036854775807 := by
-                      simpa [physical, lenOf, i64Max] using hp
-                    have hx : ¬ (kvals.getD i 0 > i64Max) := by
-                      simp only [i64Max]
-                      omega
-                    have hg := bytesGet_eval (v := none) (data := vdata) hj (b := true) rfl hr
-                    simp only [if_true] at hg
-                    have hd : dictGetStr Fixes.all (.prim kty kv kvals) (.bytes vty none voffs vdata) i = .ok ((vdata.drop (voffs.getD (kvals.getD i 0).toNat 0).toNat).take ((voffs.getD ((kvals.getD i 0).toNat + 1) 0).toNat - (voffs.getD (kvals.getD i 0).toNat 0).toNat)) := by
-                      simp only [dictGetStr, getRequired, primGet_eval hi hv, if_true, bind, Except.bind, pure, Except.pure,
-                        hx, if_false, tryIntoUsize_nonneg hx0, hg, asStr, hu]
-                    have hs : isSome Fixes.all (.dictionary (.prim kty kv kvals) (.bytes vty none voffs vdata)) i = .ok true := by
-                      simp only [isSome, optIsSome, primGet_eval hi hv]; rfl
-                    unfold readAny; rw [anyAt_of_isSome hs]
-                    simp only [if_true, readAnySome, hd, bytesVal, hty.2, toD]
-                    rfl
-                  · cases hpay2
-              · cases h
-            · cases h
-        · simp only [hi, if_false] at h; cases h
-    · cases hn
-  · cases hn
+/-! ### deserialize_any (proof: `Lemmas/C02Any.lean`, `C02Leaf.lean`, `C02Container.lean`) -/
 
-/-! ### dense unions -/
+theorem read_any_decode (a : Arr) (i : Nat) (lv : LVal)
+    (h : decodeAt a i = .ok lv) (hn : new Fixes.all a = .ok ()) (hp : physical a = true) (hu : utf8Ok lv = true) :
+    readAny Fixes.all a i = .ok (toD a lv) := readAny_decodeAt a i lv h hn hp hu
 
-theorem go_spec : ∀ (ids : List Int) (t : Int) (k p : Nat), indexOfTypeId.go t ids k = some p → k ≤ p ∧ ids[p - k]? = some t
-  | [], _, _, _, h => by simp [indexOfTypeId.go] at h
-  | x :: xs, t, k, p, h => by
-    unfold indexOfTypeId.go at h
-    split at h
-    · rename_i hx
-      cases h
-      simp only [beq_iff_eq] at hx
-      simp [hx]
-    · obtain ⟨h1, h2⟩ := go_spec xs t (k + 1) p h
-      refine ⟨by omega, ?_⟩
-      have : p - k = (p - (k + 1)) + 1 := by omega
-      rw [this, List.getElem?_cons_succ]
-      exact h2
+/-- the same, stated with the materialising oracle `Spec.decode` -/
+theorem read_any_decode_spec (a : Arr) (i : Nat) (lv : LVal)
+    (h : Spec.decode a i = .ok lv) (hn : new Fixes.all a = .ok ()) (hp : physical a = true) (hu : utf8Ok lv = true) :
+    readAny Fixes.all a i = .ok (toD a lv) := read_any_decode a i lv (decode_eq_decodeAt a i ▸ h) hn hp hu
 
-theorem ids_consecutive : ∀ (fs : ArrUFields) (k : Nat), newUFields Fixes.all fs k = .ok () →
-    ∀ p t, (ArrUFields.ids fs)[p]? = some t → t = ((k + p : Nat) : Int) ∧ p < fs.length
-  | .nil, _, _, p, t, h => by simp [ArrUFields.ids] at h
-  | .cons tid fm a rest, k, hn, p, t, h => by
-    unfold newUFields at hn
-    split at hn
-    · cases hn
-    · rename_i htid
-      obtain ⟨_, _, hn⟩ := bind_ok_inv hn
-      obtain ⟨_, _, hn⟩ := bind_ok_inv hn
-      simp only [ArrUFields.ids] at h
-      cases p with
-      | zero =>
-        simp only [List.getElem?_cons_zero, Option.some.injEq] at h
-        subst h
-        have : tid = Int.ofNat k := by
-          by_cases hh : tid = Int.ofNat k
-          · exact hh
-          · exact absurd hh htid
-        simp [this, ArrUFields.length]
-      | succ p =>
-        simp only [List.getElem?_cons_succ] at h
-        obtain ⟨h1, h2⟩ := ids_consecutive rest (k + 1) hn p t h
-        refine ⟨by rw [h1]; congr 1; omega, by simp [ArrUFields.length]; omega⟩
+/-- every field of a struct row -/
+theorem read_fields_decode (fs : ArrFields) (i : Nat) (vals : List (String × LVal))
+    (h : decodeFieldsAt fs i = .ok vals) (hn : newFields Fixes.all fs = .ok ()) (hp : physicalFields fs = true)
+    (hu : utf8OkFields (LFields.ofList vals) = true) :
+    readAnyFields Fixes.all fs i = .ok (toDFields fs (LFields.ofList vals)) := readAnyFields_decodeAt fs i vals h hn hp hu
 
-theorem findId_consecutive : ∀ (fs : ArrUFields) (k pos : Nat) (fm : FieldMeta) (child : Arr),
-    newUFields Fixes.all fs k = .ok () → ArrUFields.nth fs pos = some (fm, child) →
-    ArrUFields.findId fs ((k + pos : Nat) : Int) = some (fm, child)
-  | .nil, _, _, _, _, _, h => by simp [ArrUFields.nth] at h
-  | .cons tid fm0 a rest, k, pos, fm, child, hn, h => by
-    unfold newUFields at hn
-    split at hn
-    · cases hn
-    · rename_i htid
-      have htid' : tid = Int.ofNat k := by
-        by_cases hh : tid = Int.ofNat k
-        · exact hh
-        · exact absurd hh htid
-      obtain ⟨_, _, hn⟩ := bind_ok_inv hn
-      obtain ⟨_, _, hn⟩ := bind_ok_inv hn
-      cases pos with
-      | zero =>
-        simp only [ArrUFields.nth, Option.some.injEq] at h
-        simp [ArrUFields.findId, htid', h]
-      | succ pos =>
-        simp only [ArrUFields.nth] at h
-        have ih := findId_consecutive rest (k + 1) pos fm child hn h
-        have hne : (tid == ((k + (pos + 1) : Nat) : Int)) = false := by
-          rw [htid']; simp; omega
-        simp only [ArrUFields.findId, hne, Bool.false_eq_true, if_false]
-        have : ((k + (pos + 1) : Nat) : Int) = ((k + 1 + pos : Nat) : Int) := by congr 1; omega
-        rw [this]; exact ih
-
-/-! ### the containers -/
-
-theorem anyAt_eq_readAny (a : Arr) (i : Nat) : anyAt Fixes.all a (readAnySome Fixes.all a) i = readAny Fixes.all a i := rfl
-
-mutual
-theorem read_any_decode : ∀ (a : Arr) (i : Nat) (lv : LVal),
-    decodeAt a i = .ok lv → new Fixes.all a = .ok () → physical a = true → utf8Ok lv = true →
-    readAny Fixes.all a i = .ok (toD a lv)
-  | .null _, _, _, h, _, _, _ => null_case h
-  | .boolean _ _ _, _, _, h, _, _, _ => boolean_case h
-  | .prim _ _ _, _, _, h, _, _, _ => prim_case h
-  | .time _ _ _ _, _, _, h, _, _, _ => time_case h
-  | .timestamp _ _ _ _, _, _, h, _, _, _ => timestamp_case h
-  | .decimal128 _ _ _ _, _, _, h, _, _, _ => decimal_case h
-  | .bytes _ _ _ _, _, _, h, _, _, hu => bytes_case h hu
-  | .bytesView _ _ _ _, _, _, h, _, _, hu => view_case h hu
-  | .fixedSizeBinary _ _ _, _, _, h, hn, _, _ => fsb_case h hn
-  | .struct len v fs, i, lv, h, hn, hp, hu => by
-    unfold decodeAt at h
-    split at h
-    · rename_i hi
-      have hlt : ¬ i ≥ len := by omega
-      have his : isSome Fixes.all (.struct len v fs) i = validityIsSet Fixes.all v i := by simp only [isSome, hlt, if_false]
-      rcases withValidity_ok h with ⟨hv, rfl⟩ | ⟨hv, hpay⟩
-      · unfold readAny; rw [anyAt_of_isSome (container_isSome hv his)]; simp [toD]
-      · obtain ⟨vals, hvals, hpay⟩ := bind_ok_inv hpay
-        cases hpay
-        unfold physical at hp
-        simp only [utf8Ok] at hu
-        have hf := read_fields_decode fs i vals hvals (new_struct_inv hn) hp hu
-        unfold readAny; rw [anyAt_of_isSome (container_isSome hv his)]
-        simp only [if_true, readAnySome, hlt, if_false, hf, toD]
-        rfl
-    · cases h
-  | .list lg v offs fm el, i, lv, h, hn, hp, hu => by
-    unfold decodeAt at h
-    split at h
-    · rename_i hi
-      have hlt : ¬ i + 1 ≥ offs.length := by omega
-      have his : isSome Fixes.all (.list lg v offs fm el) i = validityIsSet Fixes.all v i := by simp only [isSome, hlt, if_false]
-      rcases withValidity_ok h with ⟨hv, rfl⟩ | ⟨hv, hpay⟩
-      · unfold readAny; rw [anyAt_of_isSome (container_isSome hv his)]; simp [toD]
-      · obtain ⟨xs, hxs, hpay⟩ := bind_ok_inv hpay
-        cases hpay
-        obtain ⟨h0, h1, _, hseq⟩ := rangeAt_ok hxs
-        unfold physical at hp
-        simp only [utf8Ok] at hu
-        have hr := readRange_of_seqAt (g := readAny Fixes.all el) (h := toD el) (P := fun v => utf8Ok v = true)
-          (fun j v hj hv' => read_any_decode el j v hj (new_list_inv hn) hp hv') _ _ xs hseq (utf8OkList_mem xs hu)
-        unfold readAny; rw [anyAt_of_isSome (container_isSome hv his)]
-        simp only [if_true, readAnySome, listRange_eval hi h0 h1, bind, Except.bind, anyAt_eq_readAny]
-        have hr' : readRange (anyAt Fixes.all el (readAnySome Fixes.all el)) (offs.getD i 0).toNat
-            ((offs.getD (i + 1) 0).toNat - (offs.getD i 0).toNat) = .ok (xs.map (toD el)) := hr
-        simp only [hr', toD, toDList_ofList, pure, Except.pure]
-    · cases h
-  | .fixedSizeList len v n fm el, i, lv, h, hn, hp, hu => by
-    unfold decodeAt at h
-    split at h
-    · rename_i hi
-      have hlt : ¬ i ≥ len := by omega
-      have his : isSome Fixes.all (.fixedSizeList len v n fm el) i = validityIsSet Fixes.all v i := by
-        simp only [isSome, hlt, if_false]
-      rcases withValidity_ok h with ⟨hv, rfl⟩ | ⟨hv, hpay⟩
-      · unfold readAny; rw [anyAt_of_isSome (container_isSome hv his)]; simp [toD]
-      · obtain ⟨hnew, hn0⟩ := new_fsl_inv hn
-        have hneg : ¬ n < 0 := by omega
-        simp only [hneg, if_false] at hpay
-        obtain ⟨xs, hxs, hpay⟩ := bind_ok_inv hpay
-        cases hpay
-        obtain ⟨_, _, hle, hseq⟩ := rangeAt_ok hxs
-        unfold physical at hp
-        simp only [Bool.and_eq_true, decide_eq_true_eq] at hp
-        simp only [utf8Ok] at hu
-        have hr := readRange_of_seqAt (g := readAny Fixes.all el) (h := toD el) (P := fun v => utf8Ok v = true)
-          (fun j v hj hv' => read_any_decode el j v hj hnew hp.2 hv') _ _ xs hseq (utf8OkList_mem xs hu)
-        have e1 : ((i : Int) * n).toNat = i * n.toNat := by
-          have : (i : Int) * n = ((i * n.toNat : Nat) : Int) := by
-            rw [Int.natCast_mul, Int.toNat_of_nonneg hn0]
-          rw [this, Int.toNat_natCast]
-        have e2 : (((i : Int) + 1) * n).toNat = (i + 1) * n.toNat := by
-          have : ((i : Int) + 1) * n = (((i + 1) * n.toNat : Nat) : Int) := by
-            rw [Int.natCast_mul, Int.toNat_of_nonneg hn0]; simp
-          rw [this, Int.toNat_natCast]
-        have hfit : ¬ (i + 1) * n.toNat > usizeMax := by
-          have : (((i + 1) * n.toNat : Nat) : Int) ≤ (lenOf el : Int) := by
-            rw [Int.natCast_mul, Int.toNat_of_nonneg hn0]; simpa using hle
-          omega
-        have hrange : fslRange Fixes.all len n i = .ok (i * n.toNat, (i + 1) * n.toNat) := by
-          unfold fslRange
-          simp only [hlt, if_false, tryIntoUsize_nonneg hn0, bind, Except.bind, hfit, pure, Except.pure]
-        rw [e1, e2] at hr
-        unfold readAny; rw [anyAt_of_isSome (container_isSome hv his)]
-        have hr' : readRange (anyAt Fixes.all el (readAnySome Fixes.all el)) (i * n.toNat)
-            ((i + 1) * n.toNat - i * n.toNat) = .ok (xs.map (toD el)) := hr
-        simp only [if_true, readAnySome, hrange, bind, Except.bind, hr', toD, toDList_ofList, pure, Except.pure]
-    · cases h
-  | .map v offs mm ks vs, i, lv, h, hn, hp, hu => by
-    unfold decodeAt at h
-    split at h
-    · rename_i hi
-      have hlt : ¬ i + 1 ≥ offs.length := by omega
-      have his : isSome Fixes.all (.map v offs mm ks vs) i = validityIsSet Fixes.all v i := by simp only [isSome, hlt, if_false]
-      rcases withValidity_ok h with ⟨hv, rfl⟩ | ⟨hv, hpay⟩
-      · unfold readAny; rw [anyAt_of_isSome (container_isSome hv his)]; simp [toD]
-      · obtain ⟨kxs, hk, hpay⟩ := bind_ok_inv hpay
-        obtain ⟨wxs, hw, hpay⟩ := bind_ok_inv hpay
-        cases hpay
-        obtain ⟨h0, h1, _, hkseq⟩ := rangeAt_ok hk
-        obtain ⟨_, _, _, hwseq⟩ := rangeAt_ok hw
-        obtain ⟨hnk, hnv⟩ := new_map_inv hn
-        unfold physical at hp
-        simp only [Bool.and_eq_true] at hp
-        simp only [utf8Ok] at hu
-        have hlen : kxs.length = wxs.length := by
-          rw [seqAt_length _ _ _ hkseq, seqAt_length _ _ _ hwseq]
-        obtain ⟨pk, pw⟩ := utf8OkEntries_zip kxs wxs hlen hu
-        have hr := readRange_pairs_of_seqAt (g1 := readAny Fixes.all ks) (g2 := readAny Fixes.all vs)
-          (h1 := toD ks) (h2 := toD vs) (P := fun v => utf8Ok v = true)
-          (fun j v hj hv' => read_any_decode ks j v hj hnk hp.1 hv')
-          (fun j v hj hv' => read_any_decode vs j v hj hnv hp.2 hv') _ _ kxs wxs hkseq hwseq pk pw
-        unfold readAny; rw [anyAt_of_isSome (container_isSome hv his)]
-        simp only [if_true, readAnySome, listRange_eval hi h0 h1, bind, Except.bind]
-        have hr' : readRange (fun j => do
-              let k ← anyAt Fixes.all ks (readAnySome Fixes.all ks) j
-              let v ← anyAt Fixes.all vs (readAnySome Fixes.all vs) j
-              pure (k, v)) (offs.getD i 0).toNat ((offs.getD (i + 1) 0).toNat - (offs.getD i 0).toNat)
-            = .ok ((kxs.zip wxs).map fun (k, w) => (toD ks k, toD vs w)) := hr
-        simp only [bind, Except.bind, pure, Except.pure] at hr'
-        simp only [hr', toD, toDEntries_ofList, pure, Except.pure]
-    · cases h
-  | .dictionary ks vs, i, lv, h, hn, hp, hu => by
-    exact dictionary_case ks vs i lv h hn hp hu
-  | .union types offs fs, i, lv, h, hn, hp, hu => by
-    unfold new at hn
-    split at hn
-    · cases hn
-    · rename_i o
-      split at hn
-      · cases hn
-      · rename_i hlen
-        have hlen' : types.length = o.length := by
-          by_cases hh : types.length = o.length
-          · exact hh
-          · exact absurd hh (by simpa using hlen)
-        unfold decodeAt at h
-        split at h
-        · rename_i hi
-          try simp only at h
-          split at h
-          · cases h
-          · rename_i pos hpos
-            try simp only at h
-            split at h
-            · rename_i hc
-              obtain ⟨v, hv, h⟩ := bind_ok_inv h
-              cases h
-              unfold indexOfTypeId at hpos
-              obtain ⟨_, hget⟩ := go_spec _ _ _ _ hpos
-              simp only [Nat.sub_zero] at hget
-              obtain ⟨ht, hposlt⟩ := ids_consecutive fs 0 hn pos _ hget
-              simp only [Nat.zero_add] at ht
-              unfold physical at hp
-              simp only [utf8Ok] at hu
-              obtain ⟨fm, child, hnth, hread⟩ := read_variant_decode fs 0 pos _ v hv hn hp hu
-              have hfind := findId_consecutive fs 0 pos fm child hn hnth
-              simp only [Nat.zero_add] at hfind
-              have hio : i < o.length := hc.1
-              have hsel : unionSelect Fixes.all types (some o) fs.length i = .ok (pos, (o.getD i (-1)).toNat) := by
-                unfold unionSelect
-                have h1 : ¬ i ≥ types.length := by omega
-                have h2 : ¬ types.length ≠ o.length := by omega
-                rw [getD_of_lt _ _ _ hi] at ht
-                have h3 : 0 ≤ types[i] ∧ types[i].toNat < fs.length := by rw [ht]; constructor <;> omega
-                have h4 : types[i].toNat = pos := by rw [ht]; simp
-                have hoff : 0 ≤ o[i] := by
-                  have := hc.2
-                  rwa [getD_of_lt _ _ _ hio] at this
-                simp only [h1, if_false, h2, List.getElem?_eq_getElem hi, List.getElem?_eq_getElem hio,
-                  getD_of_lt _ _ _ hio, bind, Except.bind, tryIntoUsize_nonneg hoff, h3, and_self, if_true, h4,
-                  hposlt, true_and, pure, Except.pure]
-              have hs : isSome Fixes.all (.union types (some o) fs) i = .ok true := by
-                have h1 : ¬ i ≥ types.length := by omega
-                simp only [isSome, h1, if_false]
-              unfold readAny; rw [anyAt_of_isSome hs]
-              simp only [if_true, readAnySome, hsel, bind, Except.bind, hread, toD]
-              rw [ht, hfind]
-            · cases h
-        · cases h
-theorem read_variant_decode : ∀ (fs : ArrUFields) (k pos j : Nat) (v : LVal),
-    decodeVariantAt fs pos j = .ok v → newUFields Fixes.all fs k = .ok () → physicalUFields fs = true →
-    utf8Ok v = true →
+/-- the selected variant of a dense union -/
+theorem read_variant_decode (fs : ArrUFields) (k pos j : Nat) (v : LVal)
+    (h : decodeVariantAt fs pos j = .ok v) (hn : newUFields Fixes.all fs k = .ok ()) (hp : physicalUFields fs = true)
+    (hu : utf8Ok v = true) :
     ∃ fm child, ArrUFields.nth fs pos = some (fm, child) ∧
-      readAnyVariant Fixes.all fs pos j = .ok (.enum (.str .transient (strBytes fm.name)) (toD child v))
-  | .nil, _, _, _, _, h, _, _, _ => by unfold decodeVariantAt at h; cases h
-  | .cons tid fm a rest, k, 0, j, v, h, hn, hp, hu => by
-    unfold decodeVariantAt at h
-    unfold newUFields at hn
-    split at hn
-    · cases hn
-    · obtain ⟨_, _, hn⟩ := bind_ok_inv hn
-      obtain ⟨u, hna, hn⟩ := bind_ok_inv hn
-      cases u
-      unfold physicalUFields at hp
-      simp only [Bool.and_eq_true] at hp
-      refine ⟨fm, a, by simp [ArrUFields.nth], ?_⟩
-      unfold readAnyVariant
-      rw [anyAt_eq_readAny, read_any_decode a j v h hna hp.1 hu]
-      rfl
-  | .cons tid fm a rest, k, pos + 1, j, v, h, hn, hp, hu => by
-    unfold decodeVariantAt at h
-    unfold newUFields at hn
-    split at hn
-    · cases hn
-    · obtain ⟨_, _, hn⟩ := bind_ok_inv hn
-      obtain ⟨_, _, hn⟩ := bind_ok_inv hn
-      unfold physicalUFields at hp
-      simp only [Bool.and_eq_true] at hp
-      obtain ⟨fm', child, hnth, hr⟩ := read_variant_decode rest (k + 1) pos j v h hn hp.2 hu
-      refine ⟨fm', child, by simp [ArrUFields.nth, hnth], ?_⟩
-      unfold readAnyVariant
-      exact hr
-theorem read_fields_decode : ∀ (fs : ArrFields) (i : Nat) (vals : List (String × LVal)),
-    decodeFieldsAt fs i = .ok vals → newFields Fixes.all fs = .ok () → physicalFields fs = true →
-    utf8OkFields (LFields.ofList vals) = true →
-    readAnyFields Fixes.all fs i = .ok (toDFields fs (LFields.ofList vals))
-  | .nil, _, _, h, _, _, _ => by
-    unfold decodeFieldsAt at h; cases h
-    simp [readAnyFields, LFields.ofList, toDFields]
-  | .cons fm a rest, i, vals, h, hn, hp, hu => by
-    unfold decodeFieldsAt at h
-    obtain ⟨v, hv, h⟩ := bind_ok_inv h
-    obtain ⟨r, hr, h⟩ := bind_ok_inv h
-    cases h
-    obtain ⟨hna, hnr⟩ := newFields_cons_inv hn
-    unfold physicalFields at hp
-    simp only [Bool.and_eq_true] at hp
-    simp only [LFields.ofList, utf8OkFields, Bool.and_eq_true] at hu
-    have h1 := read_any_decode a i v hv hna hp.1 hu.1
-    have h2 := read_fields_decode rest i r hr hnr hp.2 hu.2
-    unfold readAnyFields
-    rw [anyAt_eq_readAny, h1, h2]
-    simp [LFields.ofList, toDFields]
-    rfl
-end
+      readAnyVariant Fixes.all fs pos j = .ok (.enum (.str .transient (strBytes fm.name)) (toD child v)) :=
+  readAnyVariant_decodeAt fs k pos j v h hn hp hu
 
 /-- layout freedoms are irrelevant: the result of a read is a function of the decoded value (and the type skeleton
 through `toD`) only.  Any two arrays — or two slots — that decode to the same logical value read the same: non-zero
@@ -466,5 +93,179 @@ example :
     let canon : Arr := .list false none [0, 2, 3] ⟨"element", false, []⟩ (.prim .int32 none [1, 2, 3])
     let odd : Arr := .list false none [2, 4, 5] ⟨"element", false, []⟩ (.prim .int32 none [9, 9, 1, 2, 3, 9])
     (List.range 2).map (readAny Fixes.all canon) = (List.range 2).map (readAny Fixes.all odd) := by decide
+
+/-! ### typed reads (proof: `Lemmas/C02TypedGet.lean`, `C02TypedLeaf.lean`, `C02TypedCont.lean`, `C02TypedStruct.lean`)
+
+`cast t a lv` (SaModel/Read/Cast.lean, total, structural over the target) is the value-level meaning of reading a slot
+with logical value `lv` of array `a` into the Rust type `t`: records by field name, tuples by position, numbers by
+value, `Option` by null-ness, enums by variant name / index.  `Sound t`: whenever `cast t` demands a value `d` of a slot
+whose Arrow reading is defined, `readAs t` returns exactly `d`. -/
+
+mutual
+theorem read_typed_sound : ∀ (t : Target), Sound t
+  | .any => sound_any
+  | .ignored => sound_ignored
+  | .unit => sound_scalar (m := .unit) rfl (fun _ _ => by simp only [Read.cast]) (fun _ _ _ => by simp only [readAs])
+  | .unitStruct => sound_scalar (m := .unitStruct) rfl (fun _ _ => by simp only [Read.cast]) (fun _ _ _ => by simp only [readAs])
+  | .bool => sound_scalar (m := .bool) rfl (fun _ _ => by simp only [Read.cast]) (fun _ _ _ => by simp only [readAs])
+  | .int ty => sound_scalar (m := .int ty) rfl (fun _ _ => by simp only [Read.cast]) (fun _ _ _ => by simp only [readAs])
+  | .f32 => sound_scalar (m := .f32) rfl (fun _ _ => by simp only [Read.cast]) (fun _ _ _ => by simp only [readAs])
+  | .f64 => sound_scalar (m := .f64) rfl (fun _ _ => by simp only [Read.cast]) (fun _ _ _ => by simp only [readAs])
+  | .char => sound_scalar (m := .char) rfl (fun _ _ => by simp only [Read.cast]) (fun _ _ _ => by simp only [readAs])
+  | .string => sound_scalar (m := .string) rfl (fun _ _ => by simp only [Read.cast]) (fun _ _ _ => by simp only [readAs])
+  | .str => sound_scalar (m := .str) rfl (fun _ _ => by simp only [Read.cast]) (fun _ _ _ => by simp only [readAs])
+  | .bytes => sound_scalar (m := .bytes) rfl (fun _ _ => by simp only [Read.cast])
+      (fun a _ hl => by cases a <;> first | exact absurd rfl (hl _ _ _ _ _) | simp only [readAs])
+  | .byteBuf => sound_scalar (m := .byteBuf) rfl (fun _ _ => by simp only [Read.cast])
+      (fun a _ hl => by cases a <;> first | exact absurd rfl (hl _ _ _ _ _) | simp only [readAs])
+  | .option t => sound_option (read_typed_sound t)
+  | .newtype t => sound_newtype (read_typed_sound t)
+  | .seq t => sound_seq (read_typed_sound t)
+  | .tuple ts => sound_tuple (targets_sound ts)
+  | .tupleStruct ts => sound_tupleStruct (targets_sound ts)
+  | .map k v => sound_map (read_typed_sound k) (read_typed_sound v)
+  | .struct tfs => sound_struct (tfields_sound tfs)
+  | .enum _ vs => sound_enum (variants_sound vs)
+theorem targets_sound : ∀ (ts : Targets), ∀ t ∈ Targets.toList ts, Sound t
+  | .nil, t, h => by simp [Targets.toList] at h
+  | .cons t' rest, t, h => by
+    simp only [Targets.toList, List.mem_cons] at h
+    rcases h with h | h
+    · rw [h]; exact read_typed_sound t'
+    · exact targets_sound rest t h
+theorem tfields_sound : ∀ (tfs : TFields), ∀ p ∈ TFields.toList tfs, Sound p.2
+  | .nil, p, h => by simp [TFields.toList] at h
+  | .cons n t' rest, p, h => by
+    simp only [TFields.toList, List.mem_cons] at h
+    rcases h with h | h
+    · rw [h]; exact read_typed_sound t'
+    · exact tfields_sound rest p h
+theorem variants_sound : ∀ (vs : TVariants), ∀ p ∈ TVariants.toList vs, KSound p.2
+  | .nil, p, h => by simp [TVariants.toList] at h
+  | .cons n k rest, p, h => by
+    simp only [TVariants.toList, List.mem_cons] at h
+    rcases h with h | h
+    · rw [h]; exact kind_sound k
+    · exact variants_sound rest p h
+theorem kind_sound : ∀ (k : VKind), KSound k
+  | .unit => ksound_unit
+  | .newtype t => ksound_newtype (read_typed_sound t)
+  | .tuple ts => ksound_tuple (targets_sound ts)
+  | .struct tfs => ksound_struct (tfields_sound tfs)
+end
+
+/-- C02 for typed reads: for EVERY target type `t` (scalars, `Option`, newtype, `Vec`, tuples and tuple structs, maps,
+structs by field name, enums by variant name or index, nested to any depth), EVERY array `a` and slot `i` whose Arrow
+reading is defined, under the hypotheses of `read_any_decode`: whatever the value-level specification demands
+(`cast t a lv = must d`) is what the typed read returns.  `cast` demands nothing (`na`) where the reader does not
+support the pair, and says `mustFail` for a null slot and a non-Option target — what the code does there for container
+columns is `null_*_reads_hidden_data` below (known finding C02-null-container-into-non-option). -/
+theorem read_typed_decode (t : Target) (a : Arr) (i : Nat) (lv : LVal) (d : DVal)
+    (h : decodeAt a i = .ok lv) (hn : new Fixes.all a = .ok ()) (hp : physical a = true) (hu : utf8Ok lv = true)
+    (hc : Read.cast t a lv = must d) : readAs Fixes.all t a i = .ok d :=
+  read_typed_sound t a i lv d h hn hp hu hc
+
+/-- the same, stated with the materialising oracle `Spec.decode` -/
+theorem read_typed_decode_spec (t : Target) (a : Arr) (i : Nat) (lv : LVal) (d : DVal)
+    (h : Spec.decode a i = .ok lv) (hn : new Fixes.all a = .ok ()) (hp : physical a = true) (hu : utf8Ok lv = true)
+    (hc : Read.cast t a lv = must d) : readAs Fixes.all t a i = .ok d :=
+  read_typed_decode t a i lv d (decode_eq_decodeAt a i ▸ h) hn hp hu hc
+
+/-- `Option` targets on null slots of every column kind (containers included): `None` -/
+theorem read_option_null (t : Target) (a : Arr) (i : Nat)
+    (h : decodeAt a i = .ok .null) (hn : new Fixes.all a = .ok ()) (hp : physical a = true) :
+    readAs Fixes.all (.option t) a i = .ok .none :=
+  read_typed_decode (.option t) a i .null .none h hn hp rfl (by simp only [Read.cast])
+
+/-- typed reads return the same for any two arrays / slots with the same decoded value and claim (layout freedoms) -/
+theorem C02_typed_layout_irrelevant (t : Target) (a b : Arr) (i j : Nat) (lv : LVal) (d : DVal)
+    (ha : decodeAt a i = .ok lv) (hb : decodeAt b j = .ok lv)
+    (hna : new Fixes.all a = .ok ()) (hnb : new Fixes.all b = .ok ())
+    (hpa : physical a = true) (hpb : physical b = true) (hu : utf8Ok lv = true)
+    (hca : Read.cast t a lv = must d) (hcb : Read.cast t b lv = must d) :
+    readAs Fixes.all t a i = readAs Fixes.all t b j := by
+  rw [read_typed_decode t a i lv d ha hna hpa hu hca, read_typed_decode t b j lv d hb hnb hpb hu hcb]
+
+/-! non-vacuity (computed): a struct column with a null-able int, a list of strings and a dense union, read into a
+derived struct (fields in another order, one missing `Option` field, one column field without target), a tuple, a map
+and enums by name / by index: hypotheses hold, `cast` demands a value, and the read returns it -/
+def exCol : Arr :=
+  .struct 2 (some ⟨[0b11], 0⟩)
+    (.cons ⟨"a", true, []⟩ (.prim .int32 (some ⟨[0b01], 0⟩) [7, 9])
+    (.cons ⟨"b", false, []⟩ (.list false none [1, 3, 3] ⟨"element", false, []⟩ (.bytes .utf8 none [0, 1, 2, 4] [120, 121, 122, 122]))
+    (.cons ⟨"u", false, []⟩ (.union [1, 0] (some [0, 0])
+        (.cons 0 ⟨"N", false, []⟩ (.null 1) (.cons 1 ⟨"I", false, []⟩ (.prim .int64 none [5]) .nil))) .nil)))
+
+def exTargets : List Target :=
+  [ .struct (.cons "b" (.seq .string) (.cons "a" (.option (.int .i64)) (.cons "zz" (.option .bool) .nil))),
+    .tuple (.cons (.option (.int .i32)) (.cons (.seq .str) .nil)),
+    .map .string .any,
+    .struct (.cons "u" (.enum false (.cons "N" .unit (.cons "I" (.newtype (.int .i16)) .nil))) .nil),
+    .struct (.cons "u" (.enum true (.cons "N" .unit (.cons "I" (.newtype (.int .u8)) .nil))) .nil),
+    .option (.newtype (.struct (.cons "a" (.option (.int .i16)) .nil))) ]
+
+def exLv (i : Nat) : LVal := match decodeAt exCol i with | .ok lv => lv | .error _ => .null
+
+def isMust : Claim → Bool
+  | .ok (some _) => true
+  | _ => false
+
+theorem isMust_elim {c : Claim} (h : isMust c = true) : ∃ d, c = must d := by
+  unfold isMust at h
+  split at h
+  · exact ⟨_, rfl⟩
+  · cases h
+
+example : ∀ i ∈ [0, 1], ∀ t ∈ exTargets, exLv i ≠ .null ∧
+    ∃ d, Read.cast t exCol (exLv i) = must d ∧ readAs Fixes.all t exCol i = .ok d := by
+  have hn : new Fixes.all exCol = .ok () := by decide
+  have hp : physical exCol = true := by decide
+  have hd : ∀ i ∈ [0, 1], decodeAt exCol i = .ok (exLv i) ∧ utf8Ok (exLv i) = true ∧ exLv i ≠ .null ∧
+      exTargets.all (fun t => isMust (Read.cast t exCol (exLv i))) = true := by decide
+  intro i hi t ht
+  obtain ⟨h1, h2, h3, h4⟩ := hd i hi
+  obtain ⟨d, hc⟩ := isMust_elim (List.all_eq_true.mp h4 t ht)
+  exact ⟨h3, d, hc, read_typed_decode t exCol i (exLv i) d h1 hn hp h2 hc⟩
+
+/-! ### known finding C02-null-container-into-non-option (#23): what the code does
+
+The typed reads of the Struct / List / LargeList / FixedSizeList / Map readers never consult the validity bitmap: the
+read of a null slot into a non-Option target is the read of the same slot with the bitmap removed — by
+`read_typed_decode` on that array, the data hidden under the null (`cast` says such a read must fail). -/
+
+theorem null_struct_reads_hidden_data (t : Target) (len : Nat) (v : Option Bits) (fs : ArrFields) (i : Nat)
+    (ht : (∃ ts, t = .tuple ts) ∨ (∃ ts, t = .tupleStruct ts) ∨ (∃ k w, t = .map k w) ∨ (∃ tfs, t = .struct tfs)) :
+    readAs Fixes.all t (.struct len v fs) i = readAs Fixes.all t (.struct len none fs) i := by
+  rcases ht with ⟨ts, rfl⟩ | ⟨ts, rfl⟩ | ⟨k, w, rfl⟩ | ⟨tfs, rfl⟩ <;> simp only [readAs, tupleVisit, structVisit]
+
+theorem null_list_reads_hidden_data (t : Target) (lg : Bool) (v : Option Bits) (offs : List Int) (fm : FieldMeta) (el : Arr) (i : Nat) :
+    readAs Fixes.all (.seq t) (.list lg v offs fm el) i = readAs Fixes.all (.seq t) (.list lg none offs fm el) i := by
+  simp only [readAs]
+
+theorem null_fsl_reads_hidden_data (t : Target) (len : Nat) (v : Option Bits) (n : Int) (fm : FieldMeta) (el : Arr) (i : Nat) :
+    readAs Fixes.all (.seq t) (.fixedSizeList len v n fm el) i = readAs Fixes.all (.seq t) (.fixedSizeList len none n fm el) i := by
+  simp only [readAs]
+
+theorem null_map_reads_hidden_data (k w : Target) (v : Option Bits) (offs : List Int) (mm : MapMeta) (ks vs : Arr) (i : Nat) :
+    readAs Fixes.all (.map k w) (.map v offs mm ks vs) i = readAs Fixes.all (.map k w) (.map none offs mm ks vs) i := by
+  simp only [readAs]
+
+/-- witness: the slot is null, the specification says the read must fail, the code returns the hidden `(42,)` /
+`[1, 2]` / `{1: 2}`; the same slots into `Option` targets are `None` -/
+theorem null_container_into_non_option_witness :
+    let a : Arr := .struct 1 (some ⟨[0], 0⟩) (.cons ⟨"x", false, []⟩ (.prim .int32 none [42]) .nil)
+    let t : Target := .tuple (.cons (.int .i32) .nil)
+    let l : Arr := .list false (some ⟨[0], 0⟩) [0, 2] ⟨"element", false, []⟩ (.prim .int32 none [1, 2])
+    let m : Arr := .map (some ⟨[0], 0⟩) [0, 1] ⟨"entries", false, ⟨"key", false, []⟩, ⟨"value", false, []⟩⟩
+      (.prim .int8 none [1]) (.prim .int8 none [2])
+    decodeAt a 0 = .ok .null ∧ new Fixes.all a = .ok () ∧
+    Read.cast t a .null = mustFail "null into a non-Option target" ∧
+    readAs Fixes.all t a 0 = .ok (.seq (.cons (.int .i32 42) .nil)) ∧
+    readAs Fixes.all (.option t) a 0 = .ok .none ∧
+    decodeAt l 0 = .ok .null ∧ Read.cast (.seq (.int .i32)) l .null = mustFail "null into a non-Option target" ∧
+    readAs Fixes.all (.seq (.int .i32)) l 0 = .ok (.seq (.cons (.int .i32 1) (.cons (.int .i32 2) .nil))) ∧
+    readAs Fixes.all (.option (.seq (.int .i32))) l 0 = .ok .none ∧
+    decodeAt m 0 = .ok .null ∧ Read.cast (.map (.int .u8) (.int .u8)) m .null = mustFail "null into a non-Option target" ∧
+    readAs Fixes.all (.map (.int .u8) (.int .u8)) m 0 = .ok (.map (.cons (.int .u8 1) (.int .u8 2) .nil)) := by decide
 
 end SaModel.Props.C02
